@@ -846,7 +846,7 @@ pub fn gen_seg(rng: &mut Rng, body: &[u8]) -> (Seg, &'static str) {
 /// For streams with very long text lines: a line is re-scanned on every read, so fine-grained
 /// policies would make a single case quadratic. Keep the policies whose reads are few.
 pub fn coarse_only(name: &str) -> bool {
-    matches!(name, "whole" | "lines" | "before_lf" | "random" | "split2" | "around_boundaries")
+    matches!(name, "whole" | "lines" | "before_lf" | "random" | "split2" | "split3" | "around_boundaries")
 }
 
 pub fn gen_pending(rng: &mut Rng) -> Vec<u8> {
